@@ -349,3 +349,23 @@ reg["C12"]["explanation"] += "; both front ends stop with the primitive that wai
 
 # two due schedules in one sweep (helpers shared between them, e.g. caches, are exercised)
 reg["C10"]["harnesses"] += co(["VH_S_Fire"], ["C10:"], opts={"slots.callbacks": 0, "slots.locks": 0, "slots.schedules": 2, "slots.promises": 2, "slots.tasks": 2, "batch": 2, "faults": 0}, optsT=SCHEDOPT_T, reach=REACH_P, pgquick=False)
+
+# ---- audit of posed obligations against the property texts (after round four)
+# C01: "the same in every response ... and notification": front-end replies are the kernel's promise; the notify body carries the completed promise
+reg["C01"]["harnesses"] += front(["ReadPromise", "CompletePromise"], ["ReadPromise"], ["C20:http-reply-is-the-kernel-promise", "C20:reply-carries-the-kernel-promise"])
+reg["C01"]["harnesses"].append({"name": "VH_SN_Process", "pkg": "internal/app/subsystems/aio/sender", "labels": ["C19:notification-carries"], "reach": ["delivered"]})
+reg["C01"]["assumptions"] = reg["C01"]["assumptions"] + FRONT_ASSUME
+# C02: schedule firing is part of every history
+reg["C02"]["harnesses"] += co(["VH_S_Fire"], ["C10:"], opts=SCHEDOPT, optsT=SCHEDOPT_T, reach=REACH_P, pgquick=False)
+# C07: the links handed out with a dispatched task claim and renew consistently
+for h in reg["C07"]["harnesses"]:
+    if h["name"] in ("VH_H_ClaimTask", "VH_H_HeartbeatTasks", "VH_H_CompleteTask"):
+        h["labels"] = sorted(set(h["labels"] + ["C07:http-"]))
+reg["C07"]["explanation"] += "; the claim and heartbeat links handed out with a dispatched task identify the same holder (task id / counter) and the claim link grants the configured default lease"
+# C13: the poll transport faces clients directly
+reg["C13"]["harnesses"] += [{"name": "VH_C18_Ops", "pkg": "internal/app/plugins/poll", "labels": ["C13:"], "opts": {"steps": 3}, "reach": ["done"]},
+                            {"name": "VH_C18_Loop", "pkg": "internal/app/plugins/poll", "labels": ["C13:"], "reach": ["sent-after-reconnect"]},
+                            {"name": "VH_SN_New", "pkg": "internal/app/subsystems/aio/sender", "labels": ["C13:"]}, {"name": "VH_RT_New", "pkg": "internal/app/subsystems/aio/router", "labels": ["C13:"]}]
+# C20: searches, claims, notifications and dispatched messages
+reg["C20"]["harnesses"] += co(["VH_P_Search"], ["C01:body"], opts=SEARCHOPT, optsT=SEARCHOPT_T, reach=REACH_P, pgquick=False)
+reg["C20"]["harnesses"].append({"name": "VH_SN_Process", "pkg": "internal/app/subsystems/aio/sender", "labels": ["C19:body", "C19:notification-carries", "C19:message-type"], "reach": ["delivered"]})
